@@ -458,3 +458,9 @@ def run(ctx):
                     ctx.ob("C19.deferred-error", not others, "flush writes (%s) before reporting the deferred error" % others, fn=fl.path, construct="reported-first")
             ctx.ob("C19.deferred-error", n_err >= 1, "the connection flush never returns the deferred error", fn=fl.path, construct="flush-reports")
         ctx.ob("C19.deferred-error", bool(defer) or not drops, "result writers finalize on drop but there is no deferred-error channel", fn="packet::PacketConn", construct="channel", nontrivial=False)
+
+    # an error met while a writer is finalized on drop is only reported by the next flush: the flush at the end of every
+    # loop iteration (C12's typestate rule: clean at every wait) is what surfaces it before the next callback
+    import rules.C12 as C12
+    C12.run(ctx)
+
